@@ -1,4 +1,5 @@
 import Mdsort.Proofs.FlagsTime
+import Mdsort.Proofs.DateFields
 
 /-!
 # C15 - date conditions compare the true age of the message
@@ -60,5 +61,59 @@ example : Model.timegm { year := 2026, mon := 0, mday := 15, hour := 12, min := 
   decide
 
 example : Model.tzoff [45, 48, 51, 51, 48] = some (-12600) := by decide
+
+/-- Which instant a date condition compares: `date [header]` the `Date` header (`getHeader1` +
+`timeParse`; absent header = no match, unparsable = error), `date access` / `modified` / `created`
+the entry of the `stat` oracle for that very field (`st_atim` / `st_mtim` / `st_ctim` in
+`expr_eval_date`; failure of `stat` or `time_format` = error) ... -/
+theorem C15_fields_source (env : Env) (m : Msg) :
+    Proofs.dateInstant env m .access = (env.fileTime .access).map some ∧
+    Proofs.dateInstant env m .modified = (env.fileTime .modified).map some ∧
+    Proofs.dateInstant env m .created = (env.fileTime .created).map some ∧
+    Proofs.dateInstant env m .header =
+      (match getHeader1 m (ofString "Date") with
+       | none => some none
+       | some d =>
+         match timeParse env.strptime env.zoneName d with
+         | none => none
+         | some t => some (some (t, d))) :=
+  ⟨rfl, rfl, rfl, rfl⟩
+
+/-- ... and the whole `date` case of the evaluator, for every field, comparison, age, `now` and state:
+error if the instant cannot be had, no match without one, otherwise a match (recorded through
+`expr_regexec` on the displayed text) iff `AgeHolds`, i.e. `now - tim > age` for `>` and
+`now - tim < age` for `<`, strictly, over the integers (an instant in the future has a negative age). -/
+theorem C15_fields (env : Env) (root : Msg) (lno : Nat) (field : DateField) (cmp : DateCmp) (age : Nat)
+    (part : Nat) (m : Msg) (st : St) :
+    eval env root (.date lno field cmp age) part m st =
+      (match Proofs.dateInstant env m field with
+       | none => (.error, st)
+       | some none => (.nomatch, st)
+       | some (some (tim, text)) =>
+         if Proofs.AgeHolds cmp age env.now tim then
+           exprRegexec env .date lno part { src := [46, 42] } (ofString "Date") text st
+         else (.nomatch, st)) := by
+  rw [Proofs.date_fields]
+  rcases Proofs.dateInstant env m field with _ | _ | ⟨tim, text⟩ <;> rfl
+
+/-- The comparison of the model is the strict one, in both directions, for all integers. -/
+theorem C15_fields_strict (age now tim : Int) :
+    (dateMatches .gt age now tim = true ↔ now - tim > age) ∧ (dateMatches .lt age now tim = true ↔ now - tim < age) :=
+  ⟨Proofs.dateMatches_gt age now tim, Proofs.dateMatches_lt age now tim⟩
+
+/-! Non-vacuity: a file with `st_atim = 300`, `st_mtim = 100`, `st_ctim = 200` at `now = 1000`
+(`Proofs.exDateEnv`): the three fields give three different answers to `> 850 seconds`, `>` and `<`
+are strict at the boundary, and an instant in the future is younger than any age. -/
+example : (eval Proofs.exDateEnv { headers := [], body := [] } (.date 1 .modified .gt 850) 0 { headers := [], body := [] }
+    { ml := [], flags := MFlags.empty }).1 = .match := by simp only [eval]; decide +kernel
+example : (eval Proofs.exDateEnv { headers := [], body := [] } (.date 1 .created .gt 850) 0 { headers := [], body := [] }
+    { ml := [], flags := MFlags.empty }).1 = .nomatch := by simp only [eval]; decide +kernel
+example : (eval Proofs.exDateEnv { headers := [], body := [] } (.date 1 .access .gt 700) 0 { headers := [], body := [] }
+    { ml := [], flags := MFlags.empty }).1 = .nomatch := by simp only [eval]; decide +kernel
+example : (eval Proofs.exDateEnv { headers := [], body := [] } (.date 1 .access .lt 700) 0 { headers := [], body := [] }
+    { ml := [], flags := MFlags.empty }).1 = .nomatch := by simp only [eval]; decide +kernel
+example : (eval Proofs.exDateEnv { headers := [], body := [] } (.date 1 .access .lt 701) 0 { headers := [], body := [] }
+    { ml := [], flags := MFlags.empty }).1 = .match := by simp only [eval]; decide +kernel
+example : Proofs.AgeHolds .lt 0 1000 2000 := by decide
 
 end Mdsort.Props
